@@ -1381,6 +1381,24 @@ func streamErr(c *core.Case) {
 	if r.Intn(2) == 0 {
 		body += `<text xmlns='` + hspeer.NSStreamErr + `' xml:lang='en'>go away &amp; stay away</text>`
 	}
+	// an application-specific condition (RFC 6120 4.9.2: after the defined
+	// condition and the text): its local name may be anything, including the
+	// name of another defined condition, and it may have content of its own
+	if r.Intn(3) == 0 {
+		app := []string{
+			`<session-replaced xmlns='urn:example:app-errors'/>`,
+			`<` + pick(r, conditions) + ` xmlns='urn:example:app-errors'/>`,
+			`<escape-your-data xmlns='urn:example:app-errors'><text>inner</text><` + pick(r, conditions) + `/></escape-your-data>`,
+			`<a:too-many xmlns:a='urn:example:app-errors' a:limit='3'>three</a:too-many>`,
+			`<text xmlns='urn:example:app-errors'>not the text</text>`,
+		}[r.Intn(5)]
+		c.Count("stream_errors_with_application_condition", 1)
+		if r.Intn(6) == 0 {
+			body = app + body
+		} else {
+			body += app
+		}
+	}
 	prefix := []string{"stream", "stream", "s", "e"}[r.Intn(4)]
 	errEl := `<` + prefix + `:error xmlns:` + prefix + `='` + hspeer.NSStream + `'>` + body + `</` + prefix + `:error>`
 	if r.Intn(4) == 0 {
@@ -1773,7 +1791,20 @@ func bindRecv(c *core.Case) {
 	if ws {
 		iqns = ` xmlns='jabber:client'`
 	}
-	req := `<iq` + iqns + ` type='set' id='` + hspeer.Esc(reqID) + `'><bind xmlns='` + hspeer.NSBind + `'>`
+	// The request's id is its unqualified id attribute; a qualified attribute
+	// with the same local name (xml:id, an extension's x:id) before or after it
+	// is something else.
+	before, after, idLook := "", "", "plain"
+	if r.Intn(4) == 0 {
+		q := []string{` xml:id='el-9'`, ` xmlns:x='urn:example:trace' x:id='trace-77'`}[r.Intn(2)]
+		if r.Intn(2) == 0 {
+			before, idLook = q, "qualified-before"
+		} else {
+			after, idLook = q, "qualified-after"
+		}
+		c.Count("bind_requests_with_qualified_id_"+idLook[10:], 1)
+	}
+	req := `<iq` + iqns + before + ` type='set' id='` + hspeer.Esc(reqID) + `'` + after + `><bind xmlns='` + hspeer.NSBind + `'>`
 	if reqRes != "" {
 		req += `<resource>` + hspeer.Esc(reqRes) + `</resource>`
 	}
@@ -1790,7 +1821,7 @@ func bindRecv(c *core.Case) {
 		return
 	}
 	c.Count("bind_receiver_cases", 1)
-	c.Sig("bind-recv|ws=%v|%s|req=%v|idspecial=%v|ok=%v", ws, mode, reqRes != "", hasSpecial(reqID), cerr == nil)
+	c.Sig("bind-recv|ws=%v|%s|req=%v|idspecial=%v|ok=%v|%s", ws, mode, reqRes != "", hasSpecial(reqID), cerr == nil, idLook)
 	if mode != "default" {
 		if len(calls) != 1 {
 			c.Violate("hdr:bind:callback-calls", "BindCustom callback invoked %d times for one request", len(calls))
@@ -1825,7 +1856,11 @@ func bindRecv(c *core.Case) {
 	}
 	c.Count("bind_replies_parsed", 1)
 	if n.Name.Local != "iq" || n.Attr("id") != reqID {
-		c.Violate("hdr:bind:reply-id", "request id %q, reply %s", reqID, n)
+		k := "hdr:bind:reply-id"
+		if idLook != "plain" {
+			k += ":" + idLook
+		}
+		c.Violate(k, "request %q with id %q, reply %s", req, reqID, n)
 		return
 	}
 	if mode == "custom-stanza-error" {
